@@ -68,6 +68,7 @@ type Contract struct {
 	Params   []string // explicit parameter names (for trusted contracts whose export data lacks names)
 	Results  []string
 	Monitors []*SinkSpec // Pattern = owner expression text
+	Grants   []*Clause   // assumed at call sites, not proved (abstract facts the unit introduces)
 	LitEnsures  map[int][]*Clause // postconditions of the N-th function literal (litresult = its result)
 	LitRequires map[int][]*Clause // assumptions on the parameters of the N-th function literal
 }
@@ -318,7 +319,7 @@ func (cs *ContractSet) loadContractFile(path, pkgPath string) error {
 		defer func() { p = nil }()
 		return cs.addClause(cur, p.kind, p.loop, p.text, path, p.line)
 	}
-	keywords := map[string]bool{"props": true, "theory": true, "opt": true, "requires": true, "ensures": true,
+	keywords := map[string]bool{"grants": true, "props": true, "theory": true, "opt": true, "requires": true, "ensures": true,
 		"modifies": true, "loop": true, "let": true, "kf": true, "trusted": true, "pure": true, "reveal": true,
 		"separated": true, "sink": true, "lemma": true, "params": true, "results": true, "lit": true, "monitor": true}
 	for _, rl := range lines {
@@ -602,7 +603,7 @@ func (cs *ContractSet) addClause(cur *Contract, kind string, loop int, text, fil
 		for _, m := range splitTopLevel(text, ',') {
 			cur.Modifies = append(cur.Modifies, strings.TrimSpace(m))
 		}
-	case "requires", "ensures", "lemma":
+	case "requires", "ensures", "lemma", "grants":
 		c, err := cs.mkClause(text, file, line)
 		if err != nil {
 			return err
@@ -620,6 +621,13 @@ func (cs *ContractSet) addClause(cur *Contract, kind string, loop int, text, fil
 			cur.Ensures = append(cur.Ensures, c)
 		case "lemma":
 			cur.Lemmas = append(cur.Lemmas, c)
+		case "grants":
+			// assumed by callers like an ensures clause, never proved in the
+			// unit: introduces an abstract (taint / typestate) fact
+			if c.Label == "" {
+				c.Label = fmt.Sprintf("g%d", len(cur.Grants)+1)
+			}
+			cur.Grants = append(cur.Grants, c)
 		}
 	case "let":
 		i := strings.Index(text, "=")
